@@ -1675,8 +1675,8 @@ fn main() {
         writeln!(out, "{}", line).unwrap();
         out.flush().unwrap();
         let ok = match kvs["elem"] {
-            "E" => dispatch!(n, E, &hdr, &ops, &mut out; 0, 1, 2, 3, 4, 5, 6, 7, 8, 16, 64, 1000),
-            "u8" => dispatch!(n, u8, &hdr, &ops, &mut out; 0, 1, 2, 3, 4, 5, 6, 7, 8, 16, 64, 1000),
+            "E" => dispatch!(n, E, &hdr, &ops, &mut out; 0, 1, 2, 3, 4, 5, 6, 7, 8, 9, 10, 11, 12, 13, 15, 16, 17, 31, 32, 33, 64, 65, 100, 128, 255, 256, 257, 1000),
+            "u8" => dispatch!(n, u8, &hdr, &ops, &mut out; 0, 1, 2, 3, 4, 5, 6, 7, 8, 9, 12, 15, 16, 17, 32, 33, 64, 100, 255, 256, 257, 1000, 4096),
             "Z" => dispatch!(n, Z, &hdr, &ops, &mut out; 0, 1, 2, 3, 4,
                 65537, 4294967295, 4294967296, 4294967297,
                 9223372036854775807, 9223372036854775808, 9223372036854775809,
